@@ -45,7 +45,7 @@ def _apply_rule(rule, text, log, part):
         raise ExtractError('bad rule %s: %s' % (rule.id, e))
     if n:
         samples = [m.group(0)[:160] for m in list(re.finditer(rule.pattern, text, flags=rule.flags))[:3]]
-        log.append(dict(rule=rule.id, part=part, count=n, matched=samples, replaced_by=rule.repl[:160], why=rule.why))
+        log.append(dict(rule=rule.id, part=part, count=n, matched=samples, replaced_by=(rule.repl[:160] if isinstance(rule.repl, str) else '<computed from the match: see the rule>'), why=rule.why))
     return new, n
 
 
@@ -151,6 +151,96 @@ def _rewrite_abortable(text, spec, log):
     log.append(dict(rule='R15:abortable', part='body', count=1, matched=['Abortable::new(async move {..}, %s).instrument(..).await' % reg],
                     replaced_by=new, why='A-abortable: two-outcome model (aborted | ran to completion); the async block becomes a named async fn with its body unchanged; .instrument(span) only attaches the span (A-tracing)'))
     return text, body
+
+
+def _fuse_iter(text, log, sig_has_iter_ret):
+    """R17 iterator fusion. Two shapes, both written out by the *definitions* of `for`, `Iterator::map`
+    and `Iterator::for_each` in core:
+
+      lazy   (tail expression of a fn returning `impl Iterator`):   RECV.drain().map(move |PAT| { STMTS; TAIL })
+      eager  (a statement):                                         RECV.values().for_each(|PAT| EXPR)
+
+    become
+
+      let mut SRC__it = hash_map_SRC(&[mut] RECV);
+      loop { match SRC__it.next() { None => break, Some(PAT) => { STMTS; let yielded__item = TAIL; } } }
+
+    plus two ghost variables for the loop invariants (`it__all` = the items the iterator will yield, `it__n` = how
+    many it has yielded; ghost code only, erased from the executable).
+
+    For the lazy shape the function is emitted *run to exhaustion*: `for x in it.map(f) { B }` is
+    `loop { match it.next() { None => break, Some(p) => { let x = f(p); B } } }`, and the emitted loop is that
+    loop with B empty. That the only consumer does run it to exhaustion with an empty B is checked where the
+    consumer is extracted (rule R11 only matches an empty-bodied `for` over the call)."""
+    m = rl.mask(text)
+    hit = re.search(r'(?P<recv>self(?:\s*\.\s*\w+)+?)\s*\.\s*(?P<src>drain|values)\(\)\s*\.\s*(?P<ad>map|for_each)\(\s*(?P<mv>move\s+)?\|', m)
+    if not hit:
+        raise ExtractError('R17: no `RECV.drain().map(|..| ..)` / `RECV.values().for_each(|..| ..)` found (source shape changed)')
+    if re.search(r'\.\s*(drain|values)\(\)', m[hit.end():]):
+        raise ExtractError('R17: more than one iterator chain')
+    src, ad = hit.group('src'), hit.group('ad')
+    if (src, ad) not in (('drain', 'map'), ('values', 'for_each')):
+        raise ExtractError('R17: unsupported chain .%s().%s(..)' % (src, ad))
+    call_open = m.rindex('(', hit.start('ad'), hit.end())
+    call_close = rl.match_bracket(m, call_open)
+    bar2 = m.index('|', hit.end())
+    pat = text[hit.end():bar2].strip()
+    cl = text[bar2 + 1:call_close].strip()
+    mcl = rl.mask(cl)
+    if mcl.startswith('{'):
+        if rl.match_bracket(mcl, 0) != len(mcl) - 1:
+            raise ExtractError('R17: closure body is not a single block')
+        inner, minner = cl[1:-1], mcl[1:-1]
+    else:
+        inner, minner = cl, mcl
+    if re.search(r'\b(return|break|continue)\b', minner):
+        raise ExtractError('R17: closure body has a control transfer')
+    # split STMTS; TAIL after the last statement end of nesting depth 0: a `;`, or a `}` that closes a block
+    # statement (followed by a line break and something that cannot continue the expression)
+    depth, last = 0, -1
+    for i, ch in enumerate(minner):
+        if ch in '([{':
+            depth += 1
+        elif ch in ')]}':
+            depth -= 1
+            if ch == '}' and depth == 0:
+                nxt = re.match(r'[ \t]*\n\s*(\S+)', minner[i + 1:])
+                if nxt and not re.match(r'(\.|\?|else\b|as\b|[-+*/%&|^=<>])', nxt.group(1)):
+                    last = i
+        elif ch == ';' and depth == 0:
+            last = i
+    stmts, tail = inner[:last + 1].strip(), inner[last + 1:].strip()
+    recv = re.sub(r'\s+', '', text[hit.start('recv'):hit.end('recv')])
+    rest = text[call_close + 1:]
+    lazy = ad == 'map'
+    if lazy:
+        if not sig_has_iter_ret or rest.strip() != '}':
+            raise ExtractError('R17: the lazy chain is not the tail expression of a fn returning impl Iterator')
+    else:
+        if not re.match(r'\s*;?\s*\}\s*$', rest):
+            raise ExtractError('R17: statements after the eager chain')
+    line_start = text.rfind('\n', 0, hit.start()) + 1
+    ind = re.match(r'[ \t]*', text[line_start:]).group(0)
+    it = src + '__it'
+    lines = ['let mut %s = hash_map_%s(&%s%s);' % (it, src, 'mut ' if src == 'drain' else '', recv),
+             'let ghost it__all = %s@;   // ghost: the items the iteration will yield' % it,
+             'let ghost mut it__n: int = 0;   // ghost: how many were yielded so far',
+             'loop {',
+             '    match %s.next() {' % it,
+             '        None => break,',
+             '        Some(%s) => {' % pat]
+    for l in stmts.split('\n'):
+        if l.strip():
+            lines.append('            ' + l.strip())
+    if tail:
+        lines.append('            ' + ('let yielded__item = %s;' % tail if lazy else tail + ';'))
+    lines += ['            proof { it__n = it__n + 1; }', '        }', '    }', '}']
+    new = text[:line_start] + '\n'.join(ind + l for l in lines) + '\n' + ind[:-4] + '}'
+    log.append(dict(rule='R17:iter-fusion', part='body', count=1, matched=[' '.join(text[hit.start():call_close + 1].split())[:200]],
+                    replaced_by='let mut %s = hash_map_%s(..); loop { match %s.next() { None => break, Some(%s) => { .. } } }' % (it, src, it, pat),
+                    why=('definition of `for` over `Iterator::map`: the returned lazy iterator is emitted run to exhaustion (its only consumer is an empty-bodied `for`, checked by R11)'
+                         if lazy else 'definition of `Iterator::for_each`') + '; hash_map_%s is the prelude model of HashMap::%s (A-hashmap-iter)' % (src, src)))
+    return new
 
 
 def _expand_ready(text, log):
@@ -272,6 +362,7 @@ class Fn:
     hints: List[Tuple[str, str]] = field(default_factory=list)
     rules: List[Rule] = field(default_factory=list)
     pre: str = ''               # first statements of the body (broadcast use ...)
+    post: str = ''              # proof block placed before the closing brace of a body that ends without a value
     fx: bool = False            # R6: gets the ghost effect-log parameter
     tags: str = 'core'          # default tags for body-safety obligations (panic freedom, callee preconditions)
     emit_name: Optional[str] = None
@@ -285,6 +376,7 @@ class Fn:
     inherited_ensures: str = ''   # ensures clauses inherited from the trait declaration (counted as obligations of this fn)
     unwrap_or_else: List[str] = field(default_factory=list)   # R8b: 'Option'/'Result' per occurrence
     abortable: Optional[dict] = None   # R15: dict(name, params, call_args, ret, requires, ensures, fx, tags)
+    fuse_iter: bool = False   # R17: `RECV.drain().map(..)` / `RECV.values().for_each(..)` written out as the loop it denotes
     drops_at_end: List[str] = field(default_factory=list)   # R14: locals with a contracted Drop, dropped explicitly at the end of the body
 
 
@@ -709,6 +801,13 @@ def build_unit(unit: Unit, outdir, repo=None):
                 body = body[:k] + '    %s.drop(Tracked(fx));\n    ' % local + body[k:]
             log.append(dict(rule='R14:explicit-drop', part='body', count=1, matched=[local], replaced_by='%s.drop(..) at the end of the body' % local,
                             why='Rust drops the local there; Verus does not model implicit Drop calls'))
+        # ---- R17
+        if f.fuse_iter:
+            body = _drop_macro_calls(body, log)
+            try:
+                body = _fuse_iter(body, log, bool(re.search(r'->\s*impl\s+Iterator\b', sig)))
+            except rl.LexError as ex:
+                raise ExtractError('%s: %s' % (f.name, ex))
         # ---- body
         if '.unwrap_or_else(' in body:
             body = _drop_macro_calls(body, log)
@@ -762,6 +861,9 @@ def build_unit(unit: Unit, outdir, repo=None):
         body, lost = _insert_hints(body, f.hints, f.name, log)
         hints_lost.extend((f.name, a) for a in lost)
         body = add_pre(body, f.pre)
+        if f.post:
+            k = body.rstrip().rfind('}')
+            body = body[:k] + '    ' + f.post.strip() + '\n    ' + body[k:]
 
         attrs = f.attrs.strip()
         if 'exec_allows_no_decreases_clause' not in attrs:
